@@ -1317,6 +1317,7 @@ func checkC19(c *Check) {
 	c19ReturnOwnsConn(c, "R16")
 	c19ClosedNotReturned(c, "R17")
 	c19CommittedNotAborted(c, "R18")
+	c19UsableRefusesClosed(c, "R19")
 }
 
 // R8: the pool never waits on a bucket. A bucket channel is bounded (the idle-count limit, possibly 0); a send that
